@@ -1,5 +1,13 @@
-// Package verifsched is the runtime behind the injected schedule points (prototype).
-// With no scheduler installed every hook is a cheap no-op.
+// Package verifsched is the runtime behind the schedule points that /verif's
+// injector (tools/vinstr) inserts into copies of netpoll's sources at check time.
+//
+// With no scheduler installed every hook is one atomic load and a return, so an
+// instrumented binary behaves like the original. With a scheduler installed, every
+// goroutine registered as an actor parks at each hook and exactly one actor runs at
+// a time; which one is the decision of Sched.Choose (a rapid draw in the checks).
+//
+// This package is overlaid into /repo/internal/verifsched at build time; it is not
+// part of the repository.
 package verifsched
 
 import (
@@ -10,14 +18,16 @@ import (
 	"strconv"
 	"sync"
 	"sync/atomic"
-	"golang.org/x/sys/unix"
 	"time"
+
+	"golang.org/x/sys/unix"
 )
 
+// Actor is one controlled goroutine.
 type Actor struct {
 	ID     int
 	Name   string
-	Daemon bool
+	Daemon bool // may stay parked for ever without that being a deadlock (poller loop, clock)
 
 	resume  chan struct{}
 	done    bool
@@ -25,59 +35,49 @@ type Actor struct {
 	point   int
 	kind    string
 	enabled func() bool
-	spun    bool // parked at a spin point: wait for somebody else to move first
-	Chans   []interface{}
+	spun    bool
+	chans   []interface{}
+	steps   int
 }
 
+// Step is one scheduling decision.
 type Step struct {
-	Actor int
-	Point int
-	Kind  string
+	Actor int    `json:"a"`
+	Point int    `json:"p"`
+	Kind  string `json:"k,omitempty"`
 }
 
+// Sched is a cooperative scheduler for one test case.
 type Sched struct {
-	mu      sync.Mutex
-	actors  []*Actor
-	byGoid  map[int64]*Actor
-	events  chan struct{}
-	pending int32 // announced goroutines that have not parked yet
-	Trace   []Step
-	closed  map[uintptr]bool
-	held    map[uintptr]*Actor
-	// Choose picks among the enabled actors (cur first when enabled).
-	Choose func(enabled []*Actor, cur *Actor) int
-	// Idle is consulted when nothing is enabled; it may change the world (fire a timer, let the peer act) and return true.
-	Idle func(s *Sched) bool
-	CloseAudit func(point int, fd int)
-	cur  *Actor
+	mu       sync.Mutex
+	actors   []*Actor
+	byGoid   map[int64]*Actor
+	notify   chan struct{}
+	pending  int32
+	closed   map[uintptr]bool
+	cur      *Actor
 	aborting int32
-	Crashes  []string // panics that escaped a goroutine started by netpoll itself (would kill the process)
-}
 
-// Abort releases every parked actor; each one leaves through runtime.Goexit and all hooks become no-ops.
-func (s *Sched) Abort() {
-	atomic.StoreInt32(&s.aborting, 1)
-	if cur() == s {
-		Uninstall()
-	}
-	s.mu.Lock()
-	var ps []*Actor
-	for _, a := range s.actors {
-		if a.parked && !a.done {
-			a.parked = false
-			ps = append(ps, a)
-		}
-	}
-	s.mu.Unlock()
-	for _, a := range ps {
-		a.resume <- struct{}{}
-	}
+	// Trace is the list of decisions taken so far.
+	Trace []Step
+	// Choose picks among the enabled actors; enabled[0] is the actor that ran last when it is enabled.
+	Choose func(enabled []*Actor, cur *Actor) int
+	// OnStep is called (on the scheduler's goroutine, everybody parked) before an actor is resumed.
+	OnStep func(step int, a *Actor)
+	// Crashes collects panics that escaped goroutines netpoll starts itself.
+	Crashes []string
+	// StallTimeout bounds how long Run waits for a running actor to reach its next hook.
+	StallTimeout time.Duration
 }
 
 var active atomic.Value // *Sched
 
+// Install makes s the scheduler consulted by the hooks.
 func Install(s *Sched) { active.Store(s) }
-func Uninstall()       { active.Store((*Sched)(nil)) }
+
+// Uninstall turns all hooks back into no-ops.
+func Uninstall() { active.Store((*Sched)(nil)) }
+
 func cur() *Sched {
 	s, _ := active.Load().(*Sched)
 	if s != nil && atomic.LoadInt32(&s.aborting) != 0 {
@@ -86,8 +86,12 @@ func cur() *Sched {
 	return s
 }
 
+// Active reports whether a scheduler is installed.
+func Active() bool { return cur() != nil }
+
+// New returns an empty scheduler.
 func New() *Sched {
-	return &Sched{byGoid: map[int64]*Actor{}, events: make(chan struct{}, 1024), closed: map[uintptr]bool{}, held: map[uintptr]*Actor{}}
+	return &Sched{byGoid: map[int64]*Actor{}, notify: make(chan struct{}, 1), closed: map[uintptr]bool{}, StallTimeout: 30 * time.Second}
 }
 
 func goid() int64 {
@@ -107,7 +111,17 @@ func (s *Sched) self() *Actor {
 	return a
 }
 
-// Go starts fn as a controlled actor. May be called from the test goroutine or from an actor.
+// Self returns the actor of the calling goroutine, or nil.
+func (s *Sched) Self() *Actor { return s.self() }
+
+func (s *Sched) wake() {
+	select {
+	case s.notify <- struct{}{}:
+	default:
+	}
+}
+
+// Go starts fn as a controlled actor. It may be called from the test goroutine or from an actor.
 func (s *Sched) Go(name string, daemon bool, fn func()) *Actor {
 	a := &Actor{Name: name, Daemon: daemon, resume: make(chan struct{})}
 	s.mu.Lock()
@@ -129,11 +143,9 @@ func (s *Sched) Go(name string, daemon bool, fn func()) *Actor {
 func (s *Sched) finish(a *Actor) {
 	s.mu.Lock()
 	a.done = true
+	a.parked = false
 	s.mu.Unlock()
-	select {
-	case s.events <- struct{}{}:
-	default:
-	}
+	s.wake()
 }
 
 func (s *Sched) park(a *Actor, point int, kind string, enabled func() bool) {
@@ -144,18 +156,28 @@ func (s *Sched) park(a *Actor, point int, kind string, enabled func() bool) {
 	if kind == "start" {
 		atomic.AddInt32(&s.pending, -1)
 	}
-	s.events <- struct{}{}
+	s.wake()
 	<-a.resume
-	if atomic.LoadInt32(&s.aborting) != 0 {
-		runtime.Goexit()
-	}
 }
 
-// Run drives the actors until all non-daemon actors are finished (ok) or nothing can move (deadlock).
-func (s *Sched) Run(maxSteps int) (ok bool, why string) {
+// Result of Run.
+type Result struct {
+	// Quiescent: no actor is enabled. Parked lists the non-daemon actors that are still parked (lost wake-up / deadlock candidates).
+	Quiescent bool
+	Parked    []*Actor
+	// Budget: the step budget ran out (livelock candidate).
+	Budget bool
+	// Stalled: an actor did not reach a hook within StallTimeout (harness problem, never a violation).
+	Stalled string
+	Steps   int
+}
+
+// Run drives the actors until nothing is enabled or maxSteps decisions were taken.
+func (s *Sched) Run(maxSteps int) Result {
 	spinOnly := 0
 	for steps := 0; ; steps++ {
 		// wait until every started goroutine is parked or done
+		deadline := time.Now().Add(s.StallTimeout)
 		for {
 			s.mu.Lock()
 			busy := 0
@@ -169,24 +191,24 @@ func (s *Sched) Run(maxSteps int) (ok bool, why string) {
 				break
 			}
 			select {
-			case <-s.events:
-			case <-time.After(10 * time.Second):
-				buf := make([]byte, 1<<20)
-				return false, "HARNESS-STUCK\n" + string(buf[:runtime.Stack(buf, true)])
+			case <-s.notify:
+			case <-time.After(50 * time.Millisecond):
+				if time.Now().After(deadline) {
+					buf := make([]byte, 1<<20)
+					return Result{Stalled: "VERIF-HARNESS stall\n" + string(buf[:runtime.Stack(buf, true)]), Steps: steps}
+				}
 			}
 		}
 		if steps >= maxSteps {
-			return false, "step budget"
+			return Result{Budget: true, Steps: steps}
 		}
 		var en []*Actor
-		allDone := true
 		s.mu.Lock()
-		for _, a := range s.actors {
+		acts := append([]*Actor(nil), s.actors...)
+		s.mu.Unlock()
+		for _, a := range acts {
 			if a.done {
 				continue
-			}
-			if !a.Daemon {
-				allDone = false
 			}
 			if a.spun && a != s.cur {
 				a.spun = false
@@ -194,35 +216,31 @@ func (s *Sched) Run(maxSteps int) (ok bool, why string) {
 			if a.spun {
 				continue
 			}
-			if a.enabled == nil || a.enabled() {
+			if a.enabled == nil || safeEnabled(a.enabled) {
 				en = append(en, a)
 			}
 		}
-		s.mu.Unlock()
 		if len(en) == 0 {
-			// nothing but spinners: let them retry, but only a bounded number of times in a row
-			s.mu.Lock()
-			for _, a := range s.actors {
+			// nothing but spinners: let them retry, a bounded number of times in a row
+			for _, a := range acts {
 				if !a.done && a.spun && spinOnly < 64 {
 					a.spun = false
 					en = append(en, a)
 				}
 			}
-			s.mu.Unlock()
 			spinOnly++
 		} else {
 			spinOnly = 0
 		}
 		if len(en) == 0 {
-			if s.Idle != nil && s.Idle(s) {
-				continue
+			res := Result{Quiescent: true, Steps: steps}
+			for _, a := range acts {
+				if !a.done && !a.Daemon {
+					res.Parked = append(res.Parked, a)
+				}
 			}
-			if allDone {
-				return true, ""
-			}
-			return false, "deadlock: " + s.Describe()
+			return res
 		}
-		// current actor first
 		for i, a := range en {
 			if a == s.cur {
 				en[0], en[i] = en[i], en[0]
@@ -230,10 +248,18 @@ func (s *Sched) Run(maxSteps int) (ok bool, why string) {
 		}
 		pick := en[0]
 		if len(en) > 1 && s.Choose != nil {
-			pick = en[s.Choose(en, s.cur)]
+			i := s.Choose(en, s.cur)
+			if i < 0 || i >= len(en) {
+				i = 0
+			}
+			pick = en[i]
+		}
+		if s.OnStep != nil {
+			s.OnStep(len(s.Trace), pick)
 		}
 		s.mu.Lock()
 		pick.parked = false
+		pick.steps++
 		s.Trace = append(s.Trace, Step{pick.ID, pick.point, pick.kind})
 		s.mu.Unlock()
 		s.cur = pick
@@ -241,16 +267,35 @@ func (s *Sched) Run(maxSteps int) (ok bool, why string) {
 	}
 }
 
-// quiet: only daemons are enabled and they are all sitting in an idle wait.
-func (s *Sched) quiet(en []*Actor) bool {
-	for _, a := range en {
-		if a.kind != "epollwait" {
-			return false
+func safeEnabled(f func() bool) (ok bool) {
+	defer func() {
+		if recover() != nil {
+			ok = false
 		}
-	}
-	return false
+	}()
+	return f()
 }
 
+// Abort ends the case: all hooks become no-ops and the parked actors are left parked for ever.
+// They must not be resumed: runtime.Goexit (or a panic) would run netpoll's deferred functions
+// (the handler task's panic path closes the connection), i.e. netpoll code touching descriptor
+// numbers that the next case is already re-using. The leaked goroutines are bounded by running
+// the cases of one shard in several short-lived processes (vcheck.py, "chunk").
+func (s *Sched) Abort() {
+	atomic.StoreInt32(&s.aborting, 1)
+	if c, _ := active.Load().(*Sched); c == s {
+		Uninstall()
+	}
+}
+
+// StepCount is the number of decisions taken so far.
+func (s *Sched) StepCount() int {
+	s.mu.Lock()
+	defer s.mu.Unlock()
+	return len(s.Trace)
+}
+
+// Describe lists all actors and where they are.
 func (s *Sched) Describe() string {
 	s.mu.Lock()
 	defer s.mu.Unlock()
@@ -261,12 +306,50 @@ func (s *Sched) Describe() string {
 	return b.String()
 }
 
-func (s *Sched) Actors() []*Actor { return s.actors }
+// Actors returns the actors created so far.
+func (s *Sched) Actors() []*Actor {
+	s.mu.Lock()
+	defer s.mu.Unlock()
+	return append([]*Actor(nil), s.actors...)
+}
+
+// Parked reports whether the actor is parked, and at which kind of hook and point.
 func (a *Actor) Parked() (bool, string, int) { return a.parked && !a.done, a.kind, a.point }
+
+// Done reports whether the actor's function returned.
 func (a *Actor) Done() bool { return a.done }
+
+// Point is the hook id the actor is parked at.
+func (a *Actor) Point() int { return a.point }
+
+// Kind is the hook kind the actor is parked at.
+func (a *Actor) Kind() string { return a.kind }
+
+// InSelectOn reports whether the actor is parked in a blocking select/recv that includes ch.
+func (a *Actor) InSelectOn(ch interface{}) bool {
+	if !a.parked || a.done || (a.kind != "select" && a.kind != "recv") {
+		return false
+	}
+	want := reflect.ValueOf(ch).Pointer()
+	for _, c := range a.chans {
+		if reflect.ValueOf(c).Pointer() == want {
+			return true
+		}
+	}
+	return false
+}
+
+// Blocked reports whether the actor is parked in a blocking receive/select with nothing ready.
+func (a *Actor) Blocked() bool {
+	if !a.parked || a.done || (a.kind != "select" && a.kind != "recv") {
+		return false
+	}
+	return a.enabled != nil && !safeEnabled(a.enabled)
+}
 
 // ---- hooks called by injected code ----
 
+// Point is a plain schedule point.
 func Point(id int) {
 	if s := cur(); s != nil {
 		if a := s.self(); a != nil {
@@ -275,6 +358,7 @@ func Point(id int) {
 	}
 }
 
+// Spin marks a busy-wait iteration (runtime.Gosched): the actor is not chosen again before somebody else moved.
 func Spin(id int) {
 	if s := cur(); s != nil {
 		if a := s.self(); a != nil {
@@ -285,26 +369,34 @@ func Spin(id int) {
 
 func chanReady(s *Sched, ch interface{}) bool {
 	v := reflect.ValueOf(ch)
+	if !v.IsValid() || v.Kind() != reflect.Chan || v.IsNil() {
+		return false
+	}
 	if v.Len() > 0 {
 		return true
 	}
-	return s.closed[v.Pointer()]
+	s.mu.Lock()
+	c := s.closed[v.Pointer()]
+	s.mu.Unlock()
+	return c
 }
 
+// Recv precedes a blocking channel receive.
 func Recv(id int, ch interface{}) {
 	if s := cur(); s != nil {
 		if a := s.self(); a != nil {
-			a.Chans = []interface{}{ch}
+			a.chans = []interface{}{ch}
 			s.park(a, id, "recv", func() bool { return chanReady(s, ch) })
-			a.Chans = nil
+			a.chans = nil
 		}
 	}
 }
 
+// Select precedes a blocking select over the given channels.
 func Select(id int, chans ...interface{}) {
 	if s := cur(); s != nil {
 		if a := s.self(); a != nil {
-			a.Chans = chans
+			a.chans = chans
 			s.park(a, id, "select", func() bool {
 				for _, ch := range chans {
 					if chanReady(s, ch) {
@@ -313,19 +405,24 @@ func Select(id int, chans ...interface{}) {
 				}
 				return false
 			})
-			a.Chans = nil
+			a.chans = nil
 		}
 	}
 }
 
+// ChanClosed precedes close(ch).
 func ChanClosed(id int, ch interface{}) {
 	if s := cur(); s != nil {
 		s.mu.Lock()
 		s.closed[reflect.ValueOf(ch).Pointer()] = true
 		s.mu.Unlock()
+		if a := s.self(); a != nil {
+			s.park(a, id, "point", nil)
+		}
 	}
 }
 
+// Lock precedes x.Lock(): runnable only when the lock is free.
 func Lock(id int, try func() bool, unlock func()) {
 	if s := cur(); s != nil {
 		if a := s.self(); a != nil {
@@ -343,9 +440,10 @@ func Lock(id int, try func() bool, unlock func()) {
 func pollReadable(fd int) bool {
 	fds := []unix.PollFd{{Fd: int32(fd), Events: unix.POLLIN}}
 	n, err := unix.Poll(fds, 0)
-	return err == nil && n > 0 && fds[0].Revents&unix.POLLIN != 0
+	return err == nil && n > 0 && fds[0].Revents&(unix.POLLIN|unix.POLLERR|unix.POLLHUP|unix.POLLNVAL) != 0
 }
 
+// EpollWait precedes EpollWait(epfd, _, msec): runnable when it would return at once.
 func EpollWait(id int, epfd int, msec int) {
 	if s := cur(); s != nil {
 		if a := s.self(); a != nil {
@@ -354,17 +452,31 @@ func EpollWait(id int, epfd int, msec int) {
 	}
 }
 
+// closeAudit is consulted before every close(2) netpoll issues, with or without a scheduler.
+var closeAudit atomic.Value // func(point, fd int)
+
+// SetCloseAudit installs (or, with nil, removes) the close(2) audit.
+func SetCloseAudit(f func(point, fd int)) {
+	if f == nil {
+		closeAudit.Store((func(int, int))(nil))
+		return
+	}
+	closeAudit.Store(f)
+}
+
+// CloseFD precedes a close of descriptor fd.
 func CloseFD(id int, fd int) {
+	if f, _ := closeAudit.Load().(func(int, int)); f != nil {
+		f(id, fd)
+	}
 	if s := cur(); s != nil {
-		if s.CloseAudit != nil {
-			s.CloseAudit(id, fd)
-		}
 		if a := s.self(); a != nil {
 			s.park(a, id, "closefd", nil)
 		}
 	}
 }
 
+// GoSpawn precedes a `go func(){...}()` statement of netpoll.
 func GoSpawn(id int) {
 	if s := cur(); s != nil {
 		if a := s.self(); a != nil {
@@ -373,12 +485,10 @@ func GoSpawn(id int) {
 	}
 }
 
-var spawnedBy sync.Map
-
+// GoStart is the first statement of a goroutine started by netpoll; it adopts the goroutine as an actor
+// when its parent announced it.
 func GoStart(id int) {
 	if s := cur(); s != nil {
-		// only goroutines announced by a controlled parent are adopted; we cannot know the parent here,
-		// so adopt iff an announcement is outstanding.
 		if atomic.LoadInt32(&s.pending) > 0 {
 			a := &Actor{Name: fmt.Sprintf("go@%d", id), resume: make(chan struct{})}
 			s.mu.Lock()
@@ -391,12 +501,17 @@ func GoStart(id int) {
 	}
 }
 
+// GoEnd is deferred in every goroutine started by netpoll.
 func GoEnd() {
 	p := recover()
-	if s := cur(); s != nil {
-		if a := s.self(); a != nil {
+	if s, _ := active.Load().(*Sched); s != nil {
+		g := goid()
+		s.mu.Lock()
+		a := s.byGoid[g]
+		s.mu.Unlock()
+		if a != nil {
 			if p != nil {
-				buf := make([]byte, 4096)
+				buf := make([]byte, 8192)
 				s.mu.Lock()
 				s.Crashes = append(s.Crashes, fmt.Sprintf("%v\n%s", p, buf[:runtime.Stack(buf, false)]))
 				s.mu.Unlock()
@@ -419,15 +534,5 @@ func WaitFor(id int, pred func() bool) {
 	}
 }
 
-// InSelectOn reports whether the actor is parked in a blocking select/recv that includes ch.
-func (a *Actor) InSelectOn(ch interface{}) bool {
-	if !a.parked || a.done || (a.kind != "select" && a.kind != "recv") {
-		return false
-	}
-	for _, c := range a.Chans {
-		if reflect.ValueOf(c).Pointer() == reflect.ValueOf(ch).Pointer() {
-			return true
-		}
-	}
-	return false
-}
+// Yield is a schedule point for harness actors.
+func Yield(id int) { Point(id) }
